@@ -78,132 +78,224 @@ def _ctor_only(ctx, cls, fn, depth=0):
     return bool(refs) and all(m.name == '__init__' or _ctor_only(ctx, cls, m, depth + 1) for m in refs)
 
 
+def _mentions_edge_ops(node):
+    for n in ast.walk(node):
+        if isinstance(n, ast.Attribute) and (n.attr in EDGE_OPS or n.attr in ('downstreams', 'upstreams')) and isinstance(n.ctx, ast.Load):
+            if n.attr in EDGE_OPS:
+                return True
+    for stmt in ast.walk(node):
+        if isinstance(stmt, ast.Call) and isinstance(stmt.func, ast.Attribute) and isinstance(stmt.func.value, ast.Attribute) \
+                and stmt.func.value.attr in ('downstreams', 'upstreams') and stmt.func.attr in ('add', 'remove', 'discard', 'append'):
+            return True
+    return False
+
+
+def _edge_candidates(ctx, cls, fn, depth=0):
+    """does fn, or a private helper it calls (method of the class or module-level function, two levels), edit an edge"""
+    if _mentions_edge_ops(fn.node):
+        return True
+    if depth >= 2:
+        return False
+    for n in own_nodes(fn.node):
+        if not isinstance(n, ast.Call):
+            continue
+        h = None
+        if isinstance(n.func, ast.Name):
+            h = ctx.model.resolve_name(fn.module, n.func)
+            if not (hasattr(h, 'node') and getattr(h, 'cls', None) is None and hasattr(h, 'params')):
+                h = None
+        elif isinstance(n.func, ast.Attribute) and isinstance(n.func.value, ast.Name) and n.func.value.id == 'self' and cls is not None:
+            h = cls.find(n.func.attr)
+            if h is not None and (h.name in PRIMITIVES or not h.module.name.startswith('streamz')):
+                h = None
+        if h is not None and h is not fn and _edge_candidates(ctx, cls, h, depth + 1):
+            return True
+    return False
+
+
+def _ops_of_record(r):
+    """(kind, end, receiver text, argument text, loop context, call) of every edge operation on a symbolic path"""
+    out = []
+    for c, _s, l in r.calls:
+        if not (isinstance(c, ast.Call) and isinstance(c.func, ast.Attribute)):
+            continue
+        f = c.func
+        if f.attr in EDGE_OPS and len(c.args) == 1 and not c.keywords and not (
+                isinstance(f.value, ast.Call) and src(f.value.func) == 'super') and src(f.value) not in ('Stream', 'core.Stream'):
+            k, e = EDGE_OPS[f.attr]
+            out.append((k, e, src(f.value), src(c.args[0]), l, c))
+        elif isinstance(f.value, ast.Attribute) and f.value.attr == 'downstreams' and f.attr in ('add', 'remove', 'discard') and c.args:
+            out.append(('add' if f.attr == 'add' else 'remove', 'down', src(f.value.value), src(c.args[0]), l, c))
+        elif isinstance(f.value, ast.Attribute) and f.value.attr == 'upstreams' and f.attr in ('append', 'remove') and c.args:
+            out.append(('add' if f.attr == 'append' else 'remove', 'up', src(f.value.value), src(c.args[0]), l, c))
+    return out
+
+
 def check_both_ends(ctx, R, classes):
+    """decided on the symbolic paths of every method that edits an edge, with its private helpers - methods and module-level
+    functions such as `_link(parent, child)` - spliced in and their parameters substituted: on every completing path each edit
+    of one end has its dual (same kind, other end, receiver and argument swapped) in the same loop iteration"""
+    from ..symexpr import SymEval
+    M = ctx.model
     for cls in classes:
         for mname, fn in cls.methods.items():
-            if mname in PRIMITIVES:
-                continue
-            ops = _edge_ops(fn)
-            if not ops:
+            if mname in PRIMITIVES or not _edge_candidates(ctx, cls, fn):
                 continue
             con = ctx.construct(fn)
-            for k, e, recv, arg, node, blk in ops:
-                dual_end = 'up' if e == 'down' else 'down'
-                dual = [o for o in ops if o[0] == k and o[1] == dual_end and o[2] == arg and o[3] == recv and o[5] == blk]
-                ok = bool(dual)
-                if not ok and (mname == '__init__' or _ctor_only(ctx, cls, fn)) and k == 'add' and e == 'down' and arg == 'self':
-                    # constructor: `for upstream in self.upstreams: upstream.downstreams.add(self)` - the other end is
-                    # the very list being iterated
-                    loop = next((l for l in ast.walk(fn.node) if isinstance(l, ast.For) and any(x is node for x in ast.walk(l))), None)
-                    ok = loop is not None and self_field(loop.iter) == 'upstreams' and isinstance(loop.target, ast.Name) \
-                        and loop.target.id == recv
-                R.ob('BOTH-ENDS', con, '%s-%s(%s,%s)' % (k, e, recv, arg), ok,
+            ctor = mname == '__init__' or _ctor_only(ctx, cls, fn)
+            try:
+                recs = [r for r in SymEval(M, cls, no_splice=tuple(PRIMITIVES)).run(fn) if not r.raised]
+            except AnalysisError as e:
+                raise AnalysisError('%s: %s' % (con, e))
+            verdict = {}
+            for r in recs:
+                ops = _ops_of_record(r)
+                stored_ups = [src(v) for f, v, _s, _l in r.stores if f == 'upstreams']
+                for k, e, recv, arg, l, c in ops:
+                    dual_end = 'up' if e == 'down' else 'down'
+                    ok = any(o[0] == k and o[1] == dual_end and o[2] == arg and o[3] == recv and o[4] == l for o in ops)
+                    if not ok and ctor and k == 'add' and e == 'down' and arg == 'self':
+                        # constructor: `for upstream in self.upstreams: upstream.downstreams.add(self)` - the other end is the
+                        # very list being iterated (the value this path stored in self.upstreams)
+                        ok = any(recv == 'ELEM(%s)' % u for u in stored_ups + ['self.upstreams'])
+                    tok = '%s-%s(%s,%s)' % (k, e, recv if len(recv) < 40 else recv[:37] + '...', arg)
+                    cur = verdict.get(tok)
+                    if cur is None or (cur[0] and not ok):
+                        verdict[tok] = (ok, c, e, arg)
+            for tok, (ok, c, e, arg) in sorted(verdict.items()):
+                R.ob('BOTH-ENDS', con, tok, ok,
                      '%s: the %s end of the edge is updated but not the other end (%s of %s)' % (
-                         src(node), 'downstream' if e == 'down' else 'upstream',
-                         'upstreams' if e == 'down' else 'downstreams', arg), ctx.where(fn, node.lineno))
+                         src(c)[:80], 'downstream' if e == 'down' else 'upstream',
+                         'upstreams' if e == 'down' else 'downstreams', arg), ctx.where(fn, fn.node.lineno), None, len(recs))
 
 
-def per_upstream_fields(cls):
-    """fields initialised in __init__ with one entry per upstream"""
-    init = cls.methods.get('__init__')
+def per_upstream_fields(cls, model=None):
+    """fields the constructor initialises with one entry per upstream, read off the constructor's symbolic normal form
+    (a helper or mix-in method that does the stores is transparent): field -> value expression"""
+    from ..symexpr import SymEval
+    init = cls.find('__init__')
     out = {}
-    if init is None:
+    if init is None or init.cls is None or model is None or not init.module.name.startswith('streamz') \
+            or not any(isinstance(n, (ast.ListComp, ast.DictComp, ast.SetComp, ast.Call)) for n in ast.walk(init.node)):
         return out
-    ups = {'upstreams'}
-    for n in own_nodes(init.node):
-        if isinstance(n, ast.Assign) and len(n.targets) == 1 and isinstance(n.targets[0], ast.Attribute) \
-                and self_field(n.targets[0]):
-            v = n.value
+    va = init.node.args.vararg.arg if init.node.args.vararg else None
+    ups = {'upstreams'} | ({va} if va else set())
+    try:
+        recs = [r for r in SymEval(model, cls).run(init) if not r.raised]
+    except AnalysisError:
+        return out
+    def is_ups(e):
+        # the inputs themselves, or a sequence built from them ((lossless,) + upstreams)
+        return any(isinstance(x, ast.Name) and x.id in ups for x in ast.walk(e)) and not any(
+            isinstance(x, (ast.Call, ast.Subscript)) for x in ast.walk(e))
+
+    for r in recs:
+        for f, v, _s, _l in r.stores:
             per = False
             if isinstance(v, (ast.ListComp, ast.DictComp, ast.SetComp)):
                 g = v.generators[0]
-                if isinstance(g.iter, ast.Name) and g.iter.id in ups and not isinstance(v, ast.ListComp):
+                if is_ups(g.iter) and not isinstance(v, ast.ListComp):
                     per = True
-                if isinstance(v, ast.ListComp) and isinstance(g.iter, ast.Name) and g.iter.id in ups \
-                        and isinstance(v.elt, ast.Constant):
+                if isinstance(v, ast.ListComp) and is_ups(g.iter) and isinstance(v.elt, ast.Constant):
                     per = True
-                if isinstance(v, ast.DictComp) and isinstance(g.iter, ast.Name) and g.iter.id in ups:
-                    per = True
-            if isinstance(v, ast.Call) and isinstance(v.func, ast.Name) and v.func.id in ('set', 'list') and v.args \
-                    and isinstance(v.args[0], ast.Name) and v.args[0].id in ups:
+            if isinstance(v, ast.BinOp) and isinstance(v.op, ast.Mult):
+                # [None] * len(upstreams)
+                for a_, b_ in ((v.left, v.right), (v.right, v.left)):
+                    if isinstance(a_, ast.List) and len(a_.elts) == 1 and isinstance(a_.elts[0], ast.Constant) \
+                            and isinstance(b_, ast.Call) and src(b_.func) == 'len' and b_.args and is_ups(b_.args[0]):
+                        per = True
+            if isinstance(v, ast.Call) and isinstance(v.func, ast.Name) and v.func.id in ('set', 'list') and len(v.args) == 1 \
+                    and is_ups(v.args[0]):
                 per = True
-            if per and self_field(n.targets[0]) != 'upstreams':
-                out[self_field(n.targets[0])] = n
+            if per and f != 'upstreams':
+                out[f] = v
+    # a local container filled inside a loop over the inputs and then stored:  for u in upstreams: L[u] = ... ; self.f = L
+    filled = set()
+    for loop in own_nodes(init.node):
+        if isinstance(loop, (ast.For, ast.AsyncFor)) and any(isinstance(x, ast.Name) and x.id in ups for x in ast.walk(loop.iter)):
+            for n in ast.walk(loop):
+                if isinstance(n, ast.Subscript) and isinstance(n.ctx, ast.Store) and isinstance(n.value, ast.Name):
+                    filled.add(n.value.id)
+                if isinstance(n, ast.Call) and isinstance(n.func, ast.Attribute) and isinstance(n.func.value, ast.Name) \
+                        and n.func.attr in ('setdefault',):
+                    filled.add(n.func.value.id)
+    for n in own_nodes(init.node):
+        if isinstance(n, ast.Assign) and len(n.targets) == 1 and isinstance(n.targets[0], ast.Attribute) and self_field(n.targets[0]) \
+                and isinstance(n.value, ast.Name) and n.value.id in filled and self_field(n.targets[0]) != 'upstreams':
+            out.setdefault(self_field(n.targets[0]), n.value)
     return out
 
 
 NAMED_COMBINING = {'zip', 'combine_latest'}      # named by the property
+_RESIZE = ('append', 'pop', 'remove', 'discard', 'add', 'update', 'insert', 'popitem', 'clear', 'extend', 'popleft', 'setdefault')
 
 
 def check_per_upstream(ctx, R, classes):
+    """on the symbolic normal forms of the hooks (helper / mix-in methods spliced, temporaries substituted): every path that
+    completes calls the base hook, resizes every per-upstream field (so no resize hangs on node state), looks the position
+    of the removed upstream up before the base removal, and grows positional state at the end"""
+    from ..symexpr import SymEval
+    M = ctx.model
     for cls in classes:
-        fields = per_upstream_fields(cls)
+        fields = per_upstream_fields(cls, M)
         if not fields:
             continue
         con = cls.module.name + '.' + cls.name
         for hook in ('_add_upstream', '_remove_upstream'):
             fn = cls.methods.get(hook)
-            named = cls.name in NAMED_COMBINING
             if fn is None:
                 msg = ('per-upstream state (%s) but no %s override: connect()/disconnect() leave the state out of step '
                        'with the inputs' % (', '.join(sorted(fields)), hook))
                 R.ob('PER-UPSTREAM-OVERRIDE', con, hook, False, msg, '%s:%d' % (cls.file, cls.node.lineno))
                 continue
-            txt_calls = [n for n in own_nodes(fn.node) if isinstance(n, ast.Call) and isinstance(n.func, ast.Attribute)
-                         and n.func.attr == hook and (isinstance(n.func.value, ast.Call) or src(n.func.value) in ('Stream', 'core.Stream'))]
-            touched = set()
-            for n in own_nodes(fn.node):
-                f = self_field(n) if isinstance(n, (ast.Attribute, ast.Subscript)) else None
-                if f in fields:
-                    # a mutation: method call on the field, subscript store/del, or assignment
-                    touched.add(f)
-            mutated = set()
-            for n in own_nodes(fn.node):
-                if isinstance(n, ast.Call) and isinstance(n.func, ast.Attribute) and self_field(n.func.value) in fields \
-                        and n.func.attr in ('append', 'pop', 'remove', 'discard', 'add', 'update', 'insert', 'popitem', 'clear'):
-                    mutated.add(self_field(n.func.value))
-                if isinstance(n, (ast.Assign, ast.Delete)):
-                    for t in (n.targets if isinstance(n, (ast.Assign, ast.Delete)) else []):
-                        if isinstance(t, ast.Subscript) and self_field(t) in fields:
-                            mutated.add(self_field(t))
-            missing = sorted(set(fields) - mutated)
-            # ... and at least one mutation of each field must be unconditional (top level of the hook; a `for` over a
-            # popped value counts): a guard on node state makes the resize depend on the data seen so far
-            uncond = set()
-            for stmt in fn.node.body:
-                scope = [stmt.iter] if isinstance(stmt, (ast.For, ast.AsyncFor)) else ([stmt] if isinstance(
-                    stmt, (ast.Expr, ast.Assign, ast.AugAssign, ast.Delete)) else [])
-                for sc in scope:
-                    for n in ast.walk(sc):
-                        if isinstance(n, ast.Call) and isinstance(n.func, ast.Attribute) and self_field(n.func.value) in fields \
-                                and n.func.attr in ('append', 'pop', 'remove', 'discard', 'add', 'update', 'insert', 'popitem', 'clear'):
-                            uncond.add(self_field(n.func.value))
-                        if isinstance(n, ast.Subscript) and isinstance(n.ctx, (ast.Store, ast.Del)) and self_field(n) in fields:
-                            uncond.add(self_field(n))
-            conditional = sorted(set(fields) - uncond - set(missing))
-            ok = bool(txt_calls) and not missing and not conditional
-            detail = ''
-            if not txt_calls:
-                detail = '%s does not call the base implementation (the upstreams list is not updated)' % hook
-            elif missing:
-                detail = '%s does not resize per-upstream field(s) %s' % (hook, ', '.join('self.' + m for m in missing))
-            elif conditional:
-                detail = '%s resizes %s only under a condition on node state: after some histories the per-upstream state is ' \
-                         'out of step with the inputs' % (hook, ', '.join('self.' + m for m in conditional))
-            # index of the removed upstream must be taken before the base removal shrinks self.upstreams
-            if ok and hook == '_remove_upstream':
-                base_line = txt_calls[0].lineno
-                idx = [n for n in own_nodes(fn.node) if isinstance(n, ast.Call) and isinstance(n.func, ast.Attribute)
-                       and n.func.attr == 'index' and self_field(n.func.value) == 'upstreams']
-                if any(i.lineno > base_line for i in idx):
+            recs = [r for r in SymEval(M, cls, no_splice=(hook,)).run(fn) if not r.raised]
+            if not recs:
+                raise AnalysisError('%s.%s has no completing path' % (con, hook))
+            ok, detail = True, ''
+            always = None
+            for r in recs:
+                base_pos, mutated, index_pos, inserts = [], set(), [], False
+                for k, (c, _s, _l) in enumerate(r.calls):
+                    if isinstance(c, ast.Call) and isinstance(c.func, ast.Attribute):
+                        if c.func.attr == hook and (isinstance(c.func.value, ast.Call) or src(c.func.value) in ('Stream', 'core.Stream')
+                                                    or (isinstance(c.func.value, ast.Name) and c.func.value.id != 'self')):
+                            base_pos.append(k)
+                        f = self_field(c.func.value)
+                        if f in fields and c.func.attr in _RESIZE:
+                            mutated.add(f)
+                            if c.func.attr == 'insert':
+                                inserts = True
+                        if c.func.attr == 'index' and self_field(c.func.value) == 'upstreams':
+                            index_pos.append(k)
+                    if isinstance(c, (ast.Assign, ast.Delete)):
+                        for t in c.targets:
+                            if isinstance(t, ast.Subscript) and self_field(t) in fields:
+                                mutated.add(self_field(t))
+                for f, v, _s2, _l2 in r.stores:
+                    pass
+                always = mutated if always is None else (always & mutated)
+                if not base_pos:
+                    ok, detail = False, '%s does not call the base implementation (the upstreams list is not updated)' % hook
+                elif hook == '_remove_upstream' and any(i > base_pos[0] for i in index_pos):
                     ok, detail = False, 'the position of the upstream is looked up after it was removed from self.upstreams'
-            if ok and hook == '_add_upstream':
-                # positional state must grow at the end, like self.upstreams.append
-                for n in own_nodes(fn.node):
-                    if isinstance(n, ast.Call) and isinstance(n.func, ast.Attribute) and self_field(n.func.value) in fields \
-                            and n.func.attr == 'insert':
-                        ok, detail = False, 'per-upstream state grows at a position other than the end'
-            R.ob('PER-UPSTREAM-OVERRIDE', con, hook, ok, detail, ctx.where(fn, fn.node.lineno))
+                elif hook == '_add_upstream' and inserts:
+                    ok, detail = False, 'per-upstream state grows at a position other than the end'
+            ever = set()
+            for r in recs:
+                for c, _s, _l in r.calls:
+                    if isinstance(c, ast.Call) and isinstance(c.func, ast.Attribute) and self_field(c.func.value) in fields \
+                            and c.func.attr in _RESIZE:
+                        ever.add(self_field(c.func.value))
+                    if isinstance(c, (ast.Assign, ast.Delete)):
+                        ever |= {self_field(t) for t in c.targets if isinstance(t, ast.Subscript) and self_field(t) in fields}
+            missing = sorted(set(fields) - ever)
+            conditional = sorted(ever - (always or set()))
+            if ok and missing:
+                ok, detail = False, '%s does not resize per-upstream field(s) %s' % (hook, ', '.join('self.' + m for m in missing))
+            elif ok and conditional:
+                ok, detail = False, '%s resizes %s only under a condition on node state: after some histories the per-upstream ' \
+                                    'state is out of step with the inputs' % (hook, ', '.join('self.' + m for m in conditional))
+            R.ob('PER-UPSTREAM-OVERRIDE', con, hook, ok, detail, ctx.where(fn, fn.node.lineno), None, len(recs))
 
 
 def check_belief_consistent(ctx, R, classes):
